@@ -18,4 +18,14 @@ JOBS = [
     dict(name='c14_load_dictionary_page_fread', entry='h_c14_dict_fread', functions=['load_dictionary_page_fread', 'decompress_page'], **C14R),
     dict(name='c14_load_next_page_mmap', entry='h_c14_page_mmap', functions=['load_next_page_mmap', 'load_dictionary_page_mmap', 'decompress_page'], **C14R),
     dict(name='c14_load_next_page_fread', entry='h_c14_page_fread', functions=['load_next_page_fread', 'load_dictionary_page_fread', 'decompress_page'], **C14R),
+
+]
+
+C04R = dict(prop='C04', harness='harness/C04/pages.c', extra_sources=['stubs/mem_stubs.c'], checks=['--memory-leak-check'],
+            cbmc_flags=MF, trusted=T_STUBS, wip=True, **PR)
+JOBS += [
+    dict(name='c04_load_dictionary_page_mmap', entry='h_c04_dict_mmap', functions=['load_dictionary_page_mmap', 'decompress_page'], **C04R),
+    dict(name='c04_load_dictionary_page_fread', entry='h_c04_dict_fread', functions=['load_dictionary_page_fread', 'decompress_page'], **C04R),
+    dict(name='c04_load_next_page_mmap', entry='h_c04_page_mmap', functions=['load_next_page_mmap', 'load_dictionary_page_mmap', 'decompress_page'], **C04R),
+    dict(name='c04_load_next_page_fread', entry='h_c04_page_fread', functions=['load_next_page_fread', 'load_dictionary_page_fread', 'decompress_page'], **C04R),
 ]
